@@ -246,6 +246,9 @@ def run(ctx):
     # ---- R12 ---------------------------------------------------------------------
     _raw_hint_identity_only(ctx)
 
+    # ---- R13 ---------------------------------------------------------------------
+    _foreign_factories_guarded(ctx)
+
     # ---- R6 ----------------------------------------------------------------------
     ctx.rule('C11.R6', 'no generated wrapper puts the call-through (or a validator invocation) inside a try body: a '
              'user exception propagates unchanged; the only try statements are the PEP 525 forwarding handlers')
@@ -557,3 +560,77 @@ def _raw_hint_identity_only(ctx):
                    'the raw annotation is compared by identity only before it is validated', not sites,
                    '; '.join(w for _, w in sites[:3]))
     ctx.floor('C11.R12', n, 8, 'functions receiving the raw annotation')
+
+
+def _foreign_factories_guarded(ctx):
+    """R13: the raw annotation (or a tuple of raw annotations) handed to a subscription factory of the typing module."""
+    repo = ctx.repo
+    ctx.rule('C11.R13', 'a raw annotation that reaches a subscription factory of a foreign module — X.__getitem__(…) / '
+             'X.__class_getitem__(…) / X[…] with X imported from typing — on the way from the sanifiers and coercers (followed '
+             'through repository functions the raw value is handed to, three calls deep) does so inside a try whose handler '
+             'catches TypeError (or broader): the typing factories hash and validate their arguments and raise a bare TypeError '
+             'for an unhashable or otherwise unacceptable member, e.g. is_bearable(0, (int, [1]))')
+    sites = {}
+    seen = set()
+
+    def taint_of(fn, names):
+        t = set(names)
+        changed = True
+        while changed:
+            changed = False
+            for a in walk_shallow(fn):
+                if isinstance(a, ast.Assign) and len(a.targets) == 1 and isinstance(a.targets[0], ast.Name) \
+                        and a.targets[0].id not in t and isinstance(a.value, ast.Name) and a.value.id in t:
+                    t.add(a.targets[0].id)
+                    changed = True
+        return t
+
+    def foreign(m, e):
+        ref = repo.resolve_expr(m, e)
+        if ref.kind == 'external':
+            return True
+        # beartype.typing re-exports the typing attributes
+        return ref.module is not None and ref.module.startswith('beartype.typing')
+
+    def follow(m, fn, names, depth, entry):
+        key = (m.name, qualname_of(fn), tuple(sorted(names)))
+        if key in seen:
+            return
+        seen.add(key)
+        t = taint_of(fn, names)
+
+        def is_t(e):
+            return isinstance(e, ast.Name) and e.id in t
+        for x in walk_shallow(fn):
+            site = None
+            if isinstance(x, ast.Call):
+                f = x.func
+                if isinstance(f, ast.Attribute) and f.attr in ('__getitem__', '__class_getitem__') and any(is_t(a) for a in x.args) \
+                        and foreign(m, f.value):
+                    site = x
+                elif depth > 0 and any(is_t(a) for a in list(x.args) + [k.value for k in x.keywords]):
+                    ref = repo.resolve_expr(m, f)
+                    if ref.kind == 'def' and ref.node is not None and ref.module in repo.modules:
+                        ps = params_of(ref.node)
+                        nn = {ps[i] for i, a in enumerate(x.args) if is_t(a) and i < len(ps)} | \
+                             {k.arg for k in x.keywords if is_t(k.value) and k.arg in ps}
+                        if nn:
+                            follow(repo.modules[ref.module], ref.node, nn, depth - 1, entry)
+            elif isinstance(x, ast.Subscript) and isinstance(x.ctx, ast.Load) and is_t(x.slice) and foreign(m, x.value):
+                site = x
+            if site is not None:
+                k = f'{m.name.rsplit(".", 1)[-1]}.{qualname_of(fn)}:{norm(site.func.value if isinstance(site, ast.Call) else site.value)}'
+                ok = inside_try_catching(site, {'TypeError', 'Exception', 'BaseException'}, stop=fn)
+                prev = sites.get(k)
+                sites[k] = (m.where(site), (prev[1] if prev else True) and ok, norm(site)[:80], entry)
+    for q in RAW_HINT_MODULES[:2]:
+        m = repo.modules.get(q)
+        ctx.require(m is not None, f'anchor vanished: module {q}')
+        for fn in [x for x in ast.walk(m.tree) if isinstance(x, ast.FunctionDef)]:
+            if 'hint' in params_of(fn):
+                follow(m, fn, {'hint'}, 3, f'{q.rsplit(".", 1)[-1]}.{qualname_of(fn)}')
+    for k, (where, ok, text, entry) in sorted(sites.items()):
+        ctx.ob('C11.R13', f'foreign-factory:{k}', where, 'the typing factory is applied to raw annotations inside a handler for TypeError',
+               ok, f'`{text}` (reached from {entry}) lets the TypeError of the typing module out')
+    ctx.floor('C11.R13', len(sites), 1, 'foreign subscription factories fed raw annotations')
+    ctx.require(len(seen) >= 8, f'only {len(seen)} functions followed from the sanifiers: the raw-annotation path was not traversed')
